@@ -13,7 +13,7 @@ Lines (`<tid>`, `<sid>`, `<id>`, `<n>` decimal; `<io>` = `ok` | `faillog` | `fai
 * `call <tid> ovcommit <base> <new> <delta|-> <id> <parent|-> <io>` / `ovtrycommit …` / `ovcommit-holdm …`
 * `call <tid> rollback <n> <io>`                      → `started` | `misuse` (the thread is inside a call)
 * `step <tid>`                                        → `ran <µstep>` | `blocked <µstep>` | `finished <µstep> <verdict>` | `idle`
-* `at <tid> <µstep>` — "thread `tid` performed micro-step `µstep`" as the lock recorder (hook H18, `vharness lockrec`)
+* `at <tid> <µstep>` — "thread `tid` performed micro-step `µstep`" as the lock recorder (hook LR, `vharness lockrec`)
   reports it: the model checks that this IS the thread's next micro-step and that it is enabled, then performs it.
   `call` (of a program of the code) and `at` lines are executed by `Locks2.replayLine` (`Api/Locks2Replay.lean`), the
   function `T15_replay_sound` is about; `atv <tid> <µstep>` is the same and makes the observation steps `sess_root`,
